@@ -14,7 +14,7 @@ RULE = ("(1) server side: real ServerHandler sessions reading a generated direct
         "(2) client side: 2-6 real client handlers fed with the chunks of their streams (records, hidden messages, server messages, "
         "empty messages, 100 KB lines; chunk sizes 1 B..32 KiB) in a scripted global order - stdout compared byte for byte with the Coq "
         "model - and by one goroutine per connection - whole-line / per-connection-order oracle; (3) makeGlobID on generated "
-        "path/glob pairs incl. mismatched depths; (4) end to end: dcat and dgrep --noColor against 3 in-process servers with distinct "
+        "path/glob pairs incl. mismatched depths; (4) end to end: dcat and dgrep (--noColor, and with colours on and the escape sequences removed) against 3 in-process servers with distinct "
         "host names and disjoint + shared permitted files, 200-1500 lines per file incl. 50 KB lines. non-trivial = at least two "
         "sources whose records interleave in the observation; distinct by the whole case")
 TRUSTED = ["Coq 8.16.1 kernel + bytecode VM (vm_compute)", "Go harness dverif session / mwrite / globid; real dcat, dgrep and in-process servers",
@@ -144,7 +144,7 @@ def generate(rng, tier):
         tc["kind"] = "tail"
         cases.append(tc)
     # (4) end to end
-    for v in range(2 if tier == "quick" else 8):
+    for v in range(3 if tier == "quick" else 8):
         cases.append({"kind": "e2e", "v": v})
     return cases
 
@@ -162,7 +162,8 @@ def _e2e(env, v):
             lines = []
             for k in range(n):
                 body = rng.choice(["keep this", "info ok", "ERROR disk", "x" * 300]) if rng.random() > 0.004 else "L" * 50000
-                lines.append(("%s-%d-%05d %s" % (d, a, k + 1, body)).encode())
+                sev = rng.choice(["", "", "", "ERROR ", "WARN ", "FATAL "])       # a leading severity is painted with an attribute
+                lines.append(("%s%s-%d-%05d %s" % (sev, d, a, k + 1, body)).encode())
             rel = "%s/app%d.log" % (d, a)
             with open(os.path.join(base, rel), "wb") as fh:
                 fh.write(b"".join(l + b"\n" for l in lines))
@@ -174,8 +175,11 @@ def _e2e(env, v):
     glob = base + "/*/app*.log"
     grep = v % 2 == 1
     tool = "dgrep" if grep else "dcat"
-    args = ["--noColor", "--files", glob] + (["--regex", "keep|L{100}", "--before", "2", "--after", "1"] if grep else [])
+    colour = v % 4 >= 2          # colours on: the escape sequences are removed before the output is judged
+    args = ([] if colour else ["--noColor"]) + ["--files", glob] + (["--regex", "keep|L{100}", "--before", "2", "--after", "1"] if grep else [])
     rc, out, err = env.client(tool, args, servers=servers, timeout=300)
+    if colour:
+        out = re.sub(rb"\x1b\[[0-9;]*m", b"", out)
     for s in servers:
         s.stop()
     _state.setdefault("e2e", {})[v] = {"out": out, "files": files}
